@@ -95,7 +95,17 @@ pub struct CaseFeatures {
 
 pub fn deep_at<P: Payload>(w: &mut World<P>, seed: u64, dc: &DeepCfg, cfg: &StepCfg) -> DeepOut {
     let mut d = DeepOut::default();
-    let live = w.m.live_slots();
+    let mut live = w.m.live_slots();
+    if live.len() > 64 {
+        // large arena: a seed-chosen sample of start nodes (always the first and last slots)
+        let all = live.clone();
+        live = vec![all[0], all[all.len() - 1]];
+        for k in 0..46u64 {
+            live.push(all[(splitmix(seed ^ k.wrapping_mul(0x9E37_79B9)) % all.len() as u64) as usize]);
+        }
+        live.sort();
+        live.dedup();
+    }
     macro_rules! stop {
         () => {
             if !d.failures.is_empty() {
@@ -128,7 +138,7 @@ pub fn deep_at<P: Payload>(w: &mut World<P>, seed: u64, dc: &DeepCfg, cfg: &Step
         stop!();
     }
     if dc.unary {
-        w.probe_unary(cfg, &mut d);
+        w.probe_unary(seed, cfg, &mut d);
         stop!();
     }
     if dc.pairs {
@@ -163,7 +173,13 @@ pub fn rich_digest<P: Payload>(w: &World<P>) -> u64 {
     let r = catch_unwind(AssertUnwindSafe(|| {
         let mut s = String::new();
         let f = |v: Vec<indextree::NodeId>| v.iter().map(|i| usize::from(*i).to_string()).collect::<Vec<_>>().join(",");
-        for slot in w.m.live_slots() {
+        let mut slots = w.m.live_slots();
+        if slots.len() > 48 {
+            // large forests: a fixed, evenly spaced sample of start nodes keeps the digest O(n)
+            let step = slots.len() / 24;
+            slots = slots.iter().copied().step_by(step.max(1)).collect();
+        }
+        for slot in slots {
             let id = w.m.n[slot].id;
             s.push_str(&f(id.ancestors(a).take(cap + 1).collect()));
             s.push(';');
@@ -303,11 +319,15 @@ pub fn run_history_on<P: Payload>(w: &mut World<P>, ops: &[Op], prof: &Profile, 
             run.fail = Some((ops.len(), d.failures, d.failing_op));
         }
     }
-    for s in 0..w.m.n.len() {
-        if w.m.n[s].live {
-            run.features.max_depth = run.features.max_depth.max(w.m.depth(s));
-            run.features.max_width = run.features.max_width.max(w.m.n[s].children.len());
+    if w.m.n.len() <= 2000 {
+        for s in 0..w.m.n.len() {
+            if w.m.n[s].live {
+                run.features.max_depth = run.features.max_depth.max(w.m.depth(s));
+                run.features.max_width = run.features.max_width.max(w.m.n[s].children.len());
+            }
         }
+    } else {
+        run.features.max_depth = 16;
     }
     run.excluded = w.excluded_calls;
     run.digest = splitmix(dig ^ table_digest(w));
@@ -394,6 +414,25 @@ pub fn c13_eval<P: Payload>(ops: &[Op], prof: &Profile, cfg: &StepCfg, record: b
     total.evals += 1;
     if rb.digest != r3b.digest || wc.arena != w3.arena {
         fails.push(c13("clone-diverges", "the clone continued differently from a replica built by the same calls without cloning".into()));
+    }
+    // (ii') clone_from into an arena that has a history of its own: result == source, then behaves like it
+    {
+        let mut scratch = w2.clone(); // a used arena (prefix + contA): its own length, capacity and free list
+        scratch.arena.clone_from(&w3.arena);
+        scratch.m = w3.m.clone();
+        scratch.ids = None;
+        total.evals += 1;
+        if scratch.arena != w3.arena {
+            fails.push(c13("clone-from-not-equal", "dest.clone_from(&src) left dest != src (dest was a used arena with its own free list)".into()));
+        } else {
+            let mut twin = w3.clone();
+            let rs = sub!(&mut scratch, &a);
+            let rt = sub!(&mut twin, &a);
+            total.evals += 1;
+            if rs.digest != rt.digest || scratch.arena != twin.arena {
+                fails.push(c13("clone-from-diverges", "an arena filled by clone_from behaves differently from its source under the same calls".into()));
+            }
+        }
     }
     // (iii) clear() then continuation == continuation on Arena::new()
     let cap0 = w1.arena.capacity();
@@ -751,7 +790,8 @@ pub fn concretise_failure(run: &CaseRun) -> Vec<Op> {
 /// ddmin-style minimisation on a concrete history: keep a candidate iff it still fails for the
 /// same property with the same signature.
 pub fn shrink<P: Payload>(mut ops: Vec<Op>, prof: &Profile, cfg: &StepCfg, prop: &str, sig: &str) -> Vec<Op> {
-    let still = |c: &[Op]| fails_for::<P>(c, prof, cfg, prop, Some(sig)).is_some();
+    let t0 = std::time::Instant::now();
+    let still = |c: &[Op]| t0.elapsed().as_secs() < 60 && fails_for::<P>(c, prof, cfg, prop, Some(sig)).is_some();
     if !still(&ops) {
         return ops;
     }
@@ -800,6 +840,8 @@ pub fn shrink<P: Payload>(mut ops: Vec<Op>, prof: &Profile, cfg: &StepCfg, prop:
                     Op::RemoveSubtree { x } => Op::RemoveSubtree { x: dec(x) },
                     Op::Set { x, v, via } => Op::Set { x: dec(x), v: *v, via: *via },
                     Op::Churn { x, cycles } => Op::Churn { x: dec(x), cycles: *cycles },
+                    Op::ChurnTo { x, limit, left } => Op::ChurnTo { x: dec(x), limit: *limit, left: *left },
+                    Op::Grow { under, n, shape } => Op::Grow { under: dec(under), n: *n, shape: *shape },
                     o => o.clone(),
                 }
             })
@@ -870,6 +912,13 @@ pub fn shrink<P: Payload>(mut ops: Vec<Op>, prof: &Profile, cfg: &StepCfg, prop:
                 Op::Churn { x, cycles } if *cycles > 1 => {
                     cands.push(Op::Churn { x: *x, cycles: cycles / 2 });
                     cands.push(Op::Churn { x: *x, cycles: cycles - 1 });
+                }
+                Op::Grow { under, n, shape } if *n > 1 => {
+                    cands.push(Op::Grow { under: *under, n: n / 2, shape: *shape });
+                    cands.push(Op::Grow { under: *under, n: n - 1, shape: *shape });
+                    if *shape != 0 {
+                        cands.push(Op::Grow { under: *under, n: *n, shape: 0 });
+                    }
                 }
                 Op::RemoveSubtree { x } => cands.push(Op::Remove { x: *x }),
                 Op::Set { x, v, via } if *v != 0 => cands.push(Op::Set { x: *x, v: 0, via: *via }),
@@ -962,8 +1011,16 @@ pub fn random_worker<P: Payload>(prop: &str, prof: &Profile, cfg: &StepCfg, seed
         };
         // first evaluation counts for statistics; shrinking re-runs do not
         let first = RefCell::new(true);
+        let fail_at: RefCell<Option<std::time::Instant>> = RefCell::new(None);
         let res = runner.run_one(tree, |ops: Vec<Op>| {
             let is_first = first.replace(false);
+            // shrinking is bounded by time as well (big-arena cases take seconds each): past the
+            // deadline every further simplification "passes", so proptest keeps its current best
+            if let Some(t) = *fail_at.borrow() {
+                if t.elapsed().as_secs() >= 45 {
+                    return Ok(());
+                }
+            }
             let run = eval_case::<P>(&ops, prof, cfg, is_first && i % 97 == 0);
             if is_first {
                 let nontrivial = run.nt.iter().any(|(p, _)| *p == prop);
@@ -974,6 +1031,9 @@ pub fn random_worker<P: Payload>(prop: &str, prof: &Profile, cfg: &StepCfg, seed
                 if let Some(f) = fs.iter().find(|f| f.hits(prop) && want.as_ref().map_or(true, |w| &f.sig == w)) {
                     if want.is_none() {
                         *target_sig.borrow_mut() = Some(f.sig.clone());
+                    }
+                    if fail_at.borrow().is_none() {
+                        *fail_at.borrow_mut() = Some(std::time::Instant::now());
                     }
                     return Err(TestCaseError::fail(f.sig.clone()));
                 }
